@@ -756,3 +756,127 @@ Lemma zero_dynamics_psd (Q : 'M[F]_n) (dt : F) : 0 <= dt -> psd Q ->
 Proof. by move=> t0 pQ; have [_ ->] := zero_dynamics Q dt; apply: psd_scale. Qed.
 
 End QdPsdPartial.
+
+(* ------------------------------------------------------------------ *)
+(** * The transition matrix is invertible, with explicit inverse; steps toward
+      positive semidefiniteness of the noise matrix *)
+Section TransitionInvertible.
+Variable F : fieldType.
+Variable n : nat.
+Variable E : F -> 'M[F]_(n + n).
+Hypothesis laws : vl_exp_laws E.
+
+Local Notation E11 t := (ulsubmx (E t)).
+Local Notation E22 t := (drsubmx (E t)).
+
+Lemma E11_E22T t : E11 t *m (E22 t)^T = 1%:M.
+Proof. by rewrite -[LHS]trmxK trmx_mul trmxK (E22_E11T laws) trmx1. Qed.
+
+Lemma vl_Phi_unit t : vl_Phi E t \in unitmx.
+Proof. by have [] := mulmx1_unit (E11_E22T t). Qed.
+
+Lemma vl_Phi_inv t : invmx (vl_Phi E t) = (E22 t)^T.
+Proof.
+by rewrite -[RHS]mul1mx -(mulVmx (vl_Phi_unit t)) -mulmxA /vl_Phi E11_E22T mulmx1.
+Qed.
+
+(** hence Phi(0) = 1 and Phi(-t) = Phi(t)^-1 *)
+Lemma vl_Phi_0 : vl_Phi E 0 = 1%:M.
+Proof.
+have := vl_Phi_add laws 0 0; rewrite addr0 => e.
+by rewrite -[LHS]mul1mx -(mulVmx (vl_Phi_unit 0)) -mulmxA -e mulVmx ?vl_Phi_unit.
+Qed.
+
+Lemma vl_Phi_opp t : vl_Phi E (- t) = invmx (vl_Phi E t).
+Proof.
+have e : vl_Phi E t *m vl_Phi E (- t) = 1%:M by rewrite -(vl_Phi_add laws) subrr vl_Phi_0.
+by rewrite -[LHS]mul1mx -(mulVmx (vl_Phi_unit t)) -mulmxA e mulmx1.
+Qed.
+
+End TransitionInvertible.
+
+Section TransitionInvertibleGen.
+Variable F : fieldType.
+Variable n : nat.
+Variable expm : 'M[F]_(n + n) -> 'M[F]_(n + n).
+Variables (A Q : 'M[F]_n).
+Hypothesis laws : vl_exp_laws (fun t : F => expm (t *: vl_mx A Q)).
+
+Theorem transition_invertible (dt : F) :
+  [/\ cpm_ret0 expm A Q dt \in unitmx,
+      invmx (cpm_ret0 expm A Q dt) = (drsubmx (expm (dt *: vl_mx A Q)))^T,
+      cpm_ret0 expm A Q 0 = 1%:M
+    & cpm_ret0 expm A Q (- dt) = invmx (cpm_ret0 expm A Q dt)].
+Proof.
+rewrite !cpm_ret0_Phi; split.
+- exact: vl_Phi_unit laws dt.
+- exact: vl_Phi_inv laws dt.
+- exact: vl_Phi_0 laws.
+- exact: vl_Phi_opp laws dt.
+Qed.
+
+End TransitionInvertibleGen.
+
+(** the same for the formal series: exp(A s) exp(-A s)  = 1, i.e. E11(s) E22(s)^T = 1 *)
+Section TransitionInvertibleSeries.
+Variable F : numFieldType.
+Variable n : nat.
+Variable A : 'M[F]_n.
+
+Lemma vl_E22_tr k : (vl_E22 A k)^T = exp_coeff (- A) k.
+Proof. by rewrite /vl_E22 /exp_coeff linearZ /= -mx_pow_tr linearN /= trmxK. Qed.
+
+Theorem formal_transition_invertible d :
+  cauchy (vl_E11 A) (fun k => (vl_E22 A k)^T) d = delta F n d /\
+  cauchy (fun k => (vl_E22 A k)^T) (vl_E11 A) d = delta F n d.
+Proof.
+split.
+- rewrite (eq_cauchy (a':=exp_coeff (- - A)) (b':=exp_coeff (- A)) _ vl_E22_tr) ?exp_coeff_inv //.
+  by move=> k; rewrite opprK.
+- by rewrite (eq_cauchy (b':=exp_coeff A) vl_E22_tr (fun=> erefl)) exp_coeff_inv.
+Qed.
+
+End TransitionInvertibleSeries.
+
+(** toward PSD of the noise matrix *)
+Section NoiseGramPartial.
+Variable F : realFieldType.
+Variable n : nat.
+Variable expm : 'M[F]_(n + n) -> 'M[F]_(n + n).
+Variables (A Q : 'M[F]_n).
+Hypothesis laws : vl_exp_laws (fun t : F => expm (t *: vl_mx A Q)).
+
+Local Notation Phi := (cpm_ret0 expm A Q).
+Local Notation Qd := (cpm_ret1 expm A Q).
+
+Lemma psd_step (P1 P2 B : 'M[F]_n) : psd P1 -> psd P2 -> psd (B *m P1 *m B^T + P2).
+Proof.
+move=> p1 p2 x; rewrite mulmxDr mulmxDl mxE addr_ge0 //.
+by have := p1 (B^T *m x); rewrite trmx_mul trmxK !mulmxA.
+Qed.
+
+Theorem noise_gram_partial :
+  (forall s t, Qd (s + t) - Phi s *m Qd t *m (Phi s)^T = Qd s) /\
+  (forall s t, psd (Qd s) -> psd (Qd t) -> psd (Qd (s + t))).
+Proof.
+have [_ hQ _ _] := composition laws; split=> s t.
+- by rewrite hQ addrC addKr.
+- by move=> ps pt; rewrite hQ; apply: psd_step.
+Qed.
+
+End NoiseGramPartial.
+
+Section NoiseFirstOrder.
+Variable F : numFieldType.
+Variable n : nat.
+Variables (A Q : 'M[F]_n).
+
+Theorem noise_first_order :
+  vl_Qd_coeff A Q 0 = 0 /\ vl_Qd_coeff A Q 1 = Q.
+Proof.
+rewrite !van_loan_coeff /=; split=> //.
+rewrite /integrand_coeff big_ord_recl big_ord0 addr0 subnn fact0 muln1 !mx_pow0 mulmx1 mul1mx.
+by rewrite !invr1 !scale1r.
+Qed.
+
+End NoiseFirstOrder.
